@@ -338,31 +338,37 @@ def _cargo_env_agreement(tier, seed, rep):
     try:
         jobs = []
         for cg in sample:
-            for via in ("set_features", "cargo_env"):
+            for via in ("set_features", "cargo_env", "explicit_over_env"):
                 d = os.path.join(wd, via, cg["id"])
                 os.makedirs(os.path.join(d, "out"))
                 path = os.path.join(d, "g.lalrpop")
                 with open(path, "w") as f:
                     f.write(core.render(cg))
-                jobs.append({"id": "%s@%s" % (cg["id"], via), "file": path, "features": cg["features"], "via": via,
-                             "out_dir": os.path.join(d, "out")})
+                job = {"id": "%s@%s" % (cg["id"], via), "file": path, "features": cg["features"], "via": via,
+                       "out_dir": os.path.join(d, "out")}
+                if via == "explicit_over_env":
+                    # the environment names exactly the features that are NOT in the explicit set
+                    job["env_features"] = [f for f in FEATS if f not in cg["features"]]
+                jobs.append(job)
         res = lp.run_jobs(jobs, wd, procs=1)   # the environment is process-wide: one process, sequential
         n = 0
         for cg in sample:
             a = res["%s@set_features" % cg["id"]]
-            b = res["%s@cargo_env" % cg["id"]]
-            n += 1
             fa = os.path.join(wd, "set_features", cg["id"], "out", "g.rs")
-            fb = os.path.join(wd, "cargo_env", cg["id"], "out", "g.rs")
-            same = (a["status"] == b["status"]) and (os.path.exists(fa) == os.path.exists(fb)) and \
-                (not os.path.exists(fa) or open(fa, "rb").read() == open(fb, "rb").read())
-            rep_case = {"grammar": cg["id"], "features": cg["features"], "status": a["status"]}
-            rep.case(rep_case)
-            if not same:
-                rep.violation("kind=cargo_feature_env_differs", "features %s via CARGO_FEATURE_* give a different result than "
-                              "set_features (%s vs %s)" % (cg["features"], b["status"], a["status"]),
-                              {"engine": "core", "cg": cg, "prop": "C15", "algo": "lane", "backend": "table", "start": cg["starts"][0],
-                               "input": []})
+            for via, kind in (("cargo_env", "cargo_feature_env_differs"), ("explicit_over_env", "explicit_features_overridden_by_env")):
+                b = res["%s@%s" % (cg["id"], via)]
+                n += 1
+                fb = os.path.join(wd, via, cg["id"], "out", "g.rs")
+                same = (a["status"] == b["status"]) and (os.path.exists(fa) == os.path.exists(fb)) and \
+                    (not os.path.exists(fa) or open(fa, "rb").read() == open(fb, "rb").read())
+                rep.case({"grammar": cg["id"], "features": cg["features"], "status": a["status"], "via": via})
+                if not same:
+                    rep.violation("kind=%s" % kind, "features %s given %s give a different result than set_features alone "
+                                  "(%s vs %s)" % (cg["features"], "through CARGO_FEATURE_*" if via == "cargo_env" else
+                                                  "explicitly while CARGO_FEATURE_* names the other features",
+                                                  b["status"], a["status"]),
+                                  {"engine": "core", "cg": cg, "prop": "C15", "algo": "lane", "backend": "table",
+                                   "start": cg["starts"][0], "input": []})
         rep.add(cargo_env_comparisons=n)
     finally:
         rmtree(wd)
